@@ -311,11 +311,11 @@ func fragTokens(frags [][]byte) string {
 }
 
 type offer struct {
-	key      string // ref text
-	truth    []byte // content the ref denotes; nil+unknown=true → nothing matches
-	noTruth  bool
-	offered  []byte
-	kind     string
+	key       string // ref text
+	truth     []byte // content the ref denotes; nil+unknown=true → nothing matches
+	noTruth   bool
+	offered   []byte
+	kind      string
 	supported bool
 }
 
